@@ -14,6 +14,7 @@ _INSTALLED = False
 _REAL = {}
 PATCHED_MODULES = []
 BACKEND = None  # backend string reported while a run is active
+PROGRESS_STEPS = 0
 
 
 def _pool_seam(*args, **kwargs):
@@ -99,6 +100,19 @@ def install():
         return _REAL["minimize"](fcn, params, method=method, args=args, kws=kws, **kw)
 
     lmfit.minimize = minimize
+
+    # progress-step counter (how much bookkeeping happened before an exception)
+    import pyimpspec.progress as _progress
+
+    real_increment = _progress.Progress.increment
+
+    def increment(self, step=1, force=False):
+        global PROGRESS_STEPS
+        if sys._getframe(1).f_code.co_name != "__exit__":
+            PROGRESS_STEPS += 1
+        return real_increment(self, step, force)
+
+    _progress.Progress.increment = increment
     return PATCHED_MODULES
 
 
